@@ -58,10 +58,7 @@ pub fn event_matches(exp: &J, obs: &J) -> Result<(), String> {
 }
 
 pub fn run_cfg(rec: &J) -> RunCfg {
-    let mut input = Vec::new();
-    for c in rec["inp"].as_array().unwrap() {
-        input.extend_from_slice(jv::concretise(c.as_str().unwrap()).as_bytes());
-    }
+    let input: Vec<Vec<u8>> = rec["inp"].as_array().unwrap().iter().map(|c| jv::concretise(c.as_str().unwrap()).into_bytes()).collect();
     let budget = rec["budget"].as_i64().unwrap_or(-1);
     let fail_at = rec["failAt"].as_i64().unwrap_or(0);
     RunCfg {
